@@ -1207,7 +1207,7 @@ def run():
                        'one configuration per process (PrettyFormatter::instance() is process-wide state); the several-PrettyFormatter-objects leg runs its objects in one process on purpose',
                        'syslog output is not observed (offline sandbox)',
                        'async configurations are drained with a live QCoreApplication (exec()+quit or resetOwnThread); the no-event-loop exit path is C04']
-    chk.proof(vlib.proof_leg('Properties_C19', ['config']))
+    chk.proof(vlib.proof_leg('Properties_C19', ['config', 'fluent']))
     model = vlib.build_model('config')
     impl = vlib.build_harness('config')
     impl_i = vlib.build_harness('install')
